@@ -290,6 +290,11 @@ def l5(ctx, rid):
             if tt is None or not f.dominates(tt, r.bb) or r.bb in f.reach_from([0], avoid_enter=[tt]):
                 continue
             ogs = core.origins_deep(prog, f, b['t']['o'], depth=3)
+            if any(o.kind in ('arg', 'upvar') for o in ogs):
+                # the condition is handed in by the caller (the request lives in a helper): follow the argument
+                for o2 in core.origins_ip(prog, f, b['t']['o'], depth=2):
+                    if o2.kind == 'call':
+                        ogs = ogs + [o2] + core.origins_deep(prog, o2.fn, o2.data.dest[0], depth=3)
             cond_calls = [o.data for o in ogs if o.kind == 'call']
             if not any(x.name in LIMITS for x in cond_calls):
                 continue
@@ -326,6 +331,10 @@ def l5(ctx, rid):
                     continue
                 # the request's function is this body or a (transitive) caller that consumes this body's result
                 if r.fn.id == f.id or any(core.Origin('call', r.fn, 0, x).kind == 'call' and any(t == (f.parent if f.is_coroutine else f.id) for t in prog.resolve(x)) for x in cond_calls if x.fn.id == r.fn.id):
+                    good = True
+                # or the request lives in a helper this body calls after the condition was computed
+                helper_root = prog.fns[r.fn.id].root
+                if any(helper_root in prog.resolve(x) and x.name != 'poll' and x.bb in f.reach_from([ob]) for x in f.calls):
                     good = True
             if good:
                 ctx.ok(rid, key, c.where(), 'size/count condition evaluated after every ok write; its true edge always sends the rotation request')
